@@ -20,7 +20,7 @@ LEVEL = "exploration"
 COMPUTERS = ("superadditive", "superadditive_cached")
 RULE = ("Hypothesis RuleBasedStateMachine: hidden superadditive game (surplus construction: int / dyadic / float, "
         "negative and non-zero-normalised included), start knowledge K0 >= minimal information, rules reveal / "
-        "unreveal / bulk reset to K' / recompute (also twice) / re-set a known value, each followed by "
+        "unreveal (each either followed by compute_bounds() or deferred until a later recompute) / bulk reset to K' / recompute (also twice) / re-set a known value, then "
         "compute_bounds() on one object per computer ('superadditive', 'superadditive_cached'); plus all knowledge "
         "sets of n=3 (8) and n=4 (1024) for drawn games. Oracle: the hidden game itself. A case is non-trivial "
         "when at some step K held a non-minimal coalition and left one unknown AND the history contains an "
@@ -58,6 +58,8 @@ class Sim:
         self.tol = 0.0 if self.cls in EXACT else 1e-9 * scale_of(self.v)
         self.seen_proper = self._proper()
         self.seen_undo = False
+        self.dirty = False
+        self.seen_nc = False
 
     def _proper(self) -> bool:
         return len(self.K) > len(self.min) and len(self.K) < (1 << self.n)
@@ -71,6 +73,9 @@ class Sim:
     def apply(self, op: list) -> None:
         repo = self.repo
         kind = op[0]
+        nc = kind.endswith("_nc")          # mutation NOT followed by compute_bounds(): bounds are stale until 'recompute'
+        if nc:
+            kind = kind[:-3]
         for g in self.objs.values():
             if kind == "reveal":
                 g.reveal_value(self.v[op[1]], repo.coal(op[1]))
@@ -84,7 +89,11 @@ class Sim:
                 g.compute_bounds()
             else:
                 raise ValueError(op)
-            g.compute_bounds()
+            if not nc:
+                g.compute_bounds()
+        self.dirty = nc
+        if nc:
+            self.seen_nc = True
         if kind == "reveal":
             self.K.add(op[1])
         elif kind == "unreveal":
@@ -96,6 +105,8 @@ class Sim:
         self.seen_proper = self.seen_proper or self._proper()
 
     def check(self, res: Result, where: str) -> None:
+        if self.dirty:          # the property speaks about the state after bounds are computed
+            return
         v, tol = self.v, self.tol
         for name, g in self.objs.items():
             known, lower, upper = self.repo.table(g)
@@ -119,6 +130,8 @@ class Sim:
         res.label(f"n={self.n}", f"cls={self.cls}")
         if self.seen_undo:
             res.label("has-undo/reset")
+        if self.seen_nc:
+            res.label("has-deferred-compute")
 
 
 @guarded
@@ -185,16 +198,16 @@ def make_machine(max_n: int, explicit_up_to: int = 5):
             self.sim.apply(op)
 
         @precondition(lambda self: self.sim is not None and self.sim.unknown())
-        @rule(i=st.integers(0, 2**20))
-        def reveal(self, i):
+        @rule(i=st.integers(0, 2**20), nc=st.booleans())
+        def reveal(self, i, nc):
             u = self.sim.unknown()
-            self._do(["reveal", u[i % len(u)]])
+            self._do(["reveal_nc" if nc else "reveal", u[i % len(u)]])
 
         @precondition(lambda self: self.sim is not None and self.sim.removable())
-        @rule(i=st.integers(0, 2**20))
-        def unreveal(self, i):
+        @rule(i=st.integers(0, 2**20), nc=st.booleans())
+        def unreveal(self, i, nc):
             r = self.sim.removable()
-            self._do(["unreveal", r[i % len(r)]])
+            self._do(["unreveal_nc" if nc else "unreveal", r[i % len(r)]])
 
         @precondition(lambda self: self.sim is not None)
         @rule(data=st.data())
